@@ -162,6 +162,7 @@ SCRIPTS = {
     "deferred-leaf-first": [("deferred", "B"), ("deferred", "A"), ("load", "A")],
     "include": [("include", "A", "/A_main")],
     "include-after-deferred": [("deferred", "A"), ("include", "A", "/A_main")],
+    "include-edit-load-include": [("include", "A", "/A_main"), ("load", "A"), ("include", "A", "/A_main")],
     "repository": [("repository", "A")],
     "doc-repository": [("docrepository", "A"), ("load", "A")],
     "refresh": [("deferred", "A"), ("load", "A"), ("refresh", "A"), ("load", "A")],
@@ -238,6 +239,13 @@ def run_script(script, urls, use_deferred=True):
                 odml.Property("own", values=["o"], parent=s)
                 s.include = url + "#" + step[2]
                 outcomes.append(("doc", model.model_of(doc)))
+                # the consumer goes on to edit its copies in place; the cached resource is not its business
+                for p_ in list(doc.iterproperties()):
+                    try:
+                        p_.append(p_.values[0] if p_.values else "edited")
+                        p_.unit = "edited"
+                    except Exception:
+                        pass
             elif op == "repository":
                 doc = odml.Document()
                 s = odml.Section("host", "A_type", parent=doc)
@@ -365,6 +373,18 @@ def judge(rec, scn, urls, ref, s, outcomes, objs, before, after, fs, decisions):
     if s.deadlock or any(o[0] == "deadlock" for o in outcomes):
         rec.violation("deadlock:%s" % sk, "no runnable thread; trace tail %r" % s.trace[-8:], case)
         return
+    # what a load / include hands out holds the values the resource files hold (res_xml), whatever earlier consumers
+    # did to their copies
+    rec.monitor("resource-values-pristine")
+    for i, o in enumerate(outcomes):
+        if o[0] == "doc" and o[1]:
+            for _, n_ in model.walk(o[1]):
+                if n_["k"] == "prop":
+                    want = [1, 2] if n_["name"].endswith("_p") else {"deep": ["x"], "own": ["o"]}.get(n_["name"])
+                    if want is not None and (n_["values"] != want or n_.get("unit") is not None):
+                        rec.violation("handed-out-values-altered-by-an-earlier-consumer:%s" % n_["name"].split("_")[-1],
+                                      "%s step %d: %s holds %r unit %r" % (sk, i, n_["name"], n_["values"], n_.get("unit")), case)
+                        break
     rec.monitor("no-raise")
     for exc in s.errors:
         rec.violation("loader-thread-raised:%s:%s" % (type(exc).__name__, _exc_class(exc)),
